@@ -326,6 +326,22 @@ def _same_obj(a, b):
 
 
 def _make_loader(case, root, init_epoch):
+    """The loader; for a third of the cases the caller then goes on using ITS parameter object for something else
+    (flips drop_last on it, as one does before building a second loader): the first loader is unaffected."""
+    held = []
+
+    def made(params):
+        held.append(params)
+        return params
+
+    loader = _make_loader0(case, root, init_epoch, made)
+    if (case["batch_size"] + case["seed"]) % 3 == 0:
+        for params in held:
+            params.drop_last = not params.drop_last
+    return loader
+
+
+def _make_loader0(case, root, init_epoch, made):
     import pydrobert.torch.data as data
 
     fam = case["family"]
@@ -338,19 +354,19 @@ def _make_loader(case, root, init_epoch):
     if fam == "spect":
         kw["suppress_alis"] = case["suppress_alis"]
         if case["params_style"] == "joint":
-            return data.SpectDataLoader(root, data.SpectDataLoaderParams(**lp), **kw)
-        return data.SpectDataLoader(root, data.DynamicLengthDataLoaderParams(**lp),
+            return data.SpectDataLoader(root, made(data.SpectDataLoaderParams(**lp)), **kw)
+        return data.SpectDataLoader(root, made(data.DynamicLengthDataLoaderParams(**lp)),
                                     data_params=data.SpectDataParams(), **kw)
     if fam == "lang":
         ref = os.path.join(root, "ref")
         if case["params_style"] == "joint":
-            return data.LangDataLoader(ref, data.LangDataLoaderParams(**lp), **kw)
-        return data.LangDataLoader(ref, data.DynamicLengthDataLoaderParams(**lp),
+            return data.LangDataLoader(ref, made(data.LangDataLoaderParams(**lp)), **kw)
+        return data.LangDataLoader(ref, made(data.DynamicLengthDataLoaderParams(**lp)),
                                    data_params=data.LangDataParams(), **kw)
     cp = dict(context_left=case["left"], context_right=case["right"], reverse=case["reverse"])
     if case["params_style"] == "joint":
-        return data.ContextWindowDataLoader(root, data.ContextWindowDataLoaderParams(**lp, **cp), **kw)
-    return data.ContextWindowDataLoader(root, data.DataLoaderParams(**lp),
+        return data.ContextWindowDataLoader(root, made(data.ContextWindowDataLoaderParams(**lp, **cp)), **kw)
+    return data.ContextWindowDataLoader(root, made(data.DataLoaderParams(**lp)),
                                         data_params=data.ContextWindowDataParams(**cp), **kw)
 
 
